@@ -167,14 +167,8 @@ def run(idx, rep, tier):
         elif kind == "formula":
             g = K.guard_of(fi, st)
             if q == "Function.matches":
-                spec = K.formula("(not self.do_frozen()) and self.match is None and self.do_onmatch() and self.args and "
-                                 "self.args.args_match is False and self.matcher.csvpath.fail_on_validation_errors")
-                # atoms about `skip` (argument normalisation / skip list) precede and do not concern the verdict
-                g2 = _drop_atoms(g, lambda a: a.startswith("self in skip") or a == "skip")
-                ok, cex = K.equiv(g2, spec)
-                rep.check(ok, "R2", f"{fi.file}::{q} guard",
-                          f"guard {G.show(g2)} is not ≡ args_match is False ∧ fail_on_validation_errors (under onmatch, not frozen); counter-example {cex}", K.where(fi, st))
-                rep.check(unparse(t) == "self.matcher.csvpath.is_valid", "R2", f"{fi.file}::{q} target", f"stores to {unparse(t)}", K.where(fi, st))
+                # decided by the interpreted Function.matches table below (frozen / onmatch / fail aspects): robust to local aliases
+                pass
             else:
                 # CsvPaths.next_paths / next_by_line: under the fail-all signal only.  lower ⇒ guard ⇒ upper:
                 # never without the signal; always with it unless the run is already shutting down (stop-all)
@@ -187,6 +181,10 @@ def run(idx, rep, tier):
                 rep.check(tgt in ("csvpath.is_valid", "self.current_matcher.is_valid"), "R2", f"{fi.file}::{q} target",
                           f"stores to {tgt}: must be the member being driven", K.where(fi, st))
 
+    # Function.matches: the verdict is stored False exactly on an argument mismatch under validation-mode fail, on a path that is neither
+    # frozen nor an onmatch miss (C05's exhaustive table of the function)
+    from . import c05 as _c05
+    _c05.function_matches_table(idx, K.as_rule(rep, "R2", keep=lambda k: k.endswith(" fail") or k.endswith(" frozen") or k.endswith(" onmatch") or k.endswith(" deterministic")), "R2")
     _r2_stop_me(idx, rep)
     _r2_handle_if(idx, rep)
     _r2_signal(idx, rep)
